@@ -144,9 +144,11 @@ PROPS = {
         rule="vbyte: boundary values 2^k, 2^k±1, 127·2^k, 128·2^k−1 plus seeded random 32-bit values, 250 per case; "
              "logseq: every width 1..64 × lengths × random set/overwrite/get histories followed by dump, save image, reload, dump, "
              "then the vector constructor; a case is non-trivial when it has ≥2 operations; distinct by hash of (stream, params, ops)",
-        partial=["DAC_VLS/DAC_BVLS: correspondence only until their model lands"],
-        explanation="VByte and LogSequence are modelled exactly (bytes and words); the theorems cover all values/widths/positions; "
-                    "the harness compares encodings, decoded values, every field and the saved image with the model",
+        partial=["DAC_BVLS is exercised only through HASHUFFDAC; the packing of DAC_VLS symbols into base_bits-wide fields is abstracted in the access model "
+                 "(the image model carries the packed words as they are)"],
+        explanation="VByte, LogSequence and DAC_VLS (layout, access, save/load bytes) are modelled exactly; the theorems cover all values/widths/positions/lists; "
+                    "the harness compares encodings, decoded values, every field, the DAC layout and accesses and the saved images with the models; "
+                    "dac-image: the real fields must serialise to the real image under the model and parse back",
         assumptions=["BitVec 64 shifts equal the C++ shifts for counts < 64 (counts of 64 are excluded by lowMask in the repaired code)",
                      "Lean compiler agrees with the kernel semantics of the model definitions"]),
 }
@@ -1422,16 +1424,20 @@ PROPS["C18"] = PropSpec(c18_streams,
                         "seeded random (sparse, wide range); both code constructions; the exported table is re-validated by the Lean driver (tree rebuilt from the table, paths = table, "
                         "Kraft = 1, leaves in order for Hu-Tucker, decode∘encode); plus every answer of the kinds that decode through the chunk table, incl. codewords longer than 16 bits; "
                         "non-trivial = at least 2 operations",
-                        ["the chunk table builder and its subtree escape are compared through the dictionaries' answers, not modelled",
+                        ["the decoding-table builder (which chunks get multi-symbol entries) is not modelled: its tables are shown sound entry by entry on every run; "
+                         "the 32-bit register of the bit buffer is abstracted to a list of pending bits",
                          "codeword depth > 32 (total frequency above 2^31) is outside the generated vectors: not reproduced as a defect"],
-                        "theorems about code trees (prefix-free, complete, order-preserving, decode∘encode); the implementation's tables are shown to be tree codes on every run",
+                        "theorems about code trees (prefix-free, complete, order-preserving, decode∘encode), about processChunk over any sound table (step = tree decoding, whole strings, totality) "
+                        "and about StatCoder::encodeSymbol/encodeString (bit-exact); the implementation's code tables are shown to be tree codes and its chunk tables sound on every run; "
+                        "chunk-table stream: real dictionaries of the five kinds, 2^16 entries each, model run on the real table over the real encoder's bytes",
                         ["all 256 frequencies >= 1, as the dictionaries guarantee"])
 PROPS["C19"] = PropSpec(c19_streams,
                         "bit vectors: all vectors of length <= 6 (thorough <= 10), sampled up to 12, lengths around multiples of 32 and of the sampling rate, all-zero, all-one, single one at either end, densities 1..99 %; "
                         "BitSequenceRG factor {1,2,3,4,20,32}, RRR sample {4,16,32,64,128}, SDArray, DArray; access/rank0/rank1 at every position, select0/select1 for every rank, before and after save/load; "
                         "wavelet trees (pointer and pointerless, Huffman shape, identity mapper) over alphabets {1,2,3,17,256}",
-                        ["only BitSequenceRG.rank1 has a theorem; the other structures are compared with the plain definitions"],
-                        "rank1 of BitSequenceRG equals the plain count (theorem); the driver answers r1 through that exact model and everything else from the plain definitions",
+                        ["BitSequenceRG has theorems (rank1, select1, select0, access, save/load bytes); RRR, SDArray, DArray and the wavelet trees are compared with the plain definitions"],
+                        "rank1/select1/select0/access of BitSequenceRG are exact (theorems) and its image reloads to itself; the driver answers r1, s1, s0 and the image through the exact models "
+                        "and everything else from the plain definitions",
                         [])
 PROPS["C20"] = PropSpec(c20_streams,
                         "integer sequences with 0 terminators: all sequences over {1,2,0} up to length 6 (thorough 8), runs of one symbol, no repeated pair, Fibonacci and Thue-Morse words (deep rules), "
